@@ -1,5 +1,5 @@
 (* Proofs about the model State/Modules.v (property C12). *)
-From Coq Require Import String DecimalString DecimalNat List Bool Arith Lia.
+From Coq Require Import String DecimalString DecimalNat List Bool Arith Lia FinFun.
 Import ListNotations.
 From SG Require Import State.Modules.
 Local Open Scope nat_scope.
@@ -727,3 +727,382 @@ Proof. destruct P as [s r g]. destruct r; reflexivity. Qed.
 
 Lemma set_req_idem b P : set_req b (set_req b P) = set_req b P.
 Proof. reflexivity. Qed.
+
+(* ================================================================== __setattr__ / register_* : replace semantics *)
+Definition reg_module (k : name) (c : nat) (M : module) : module :=
+  {| m_params := assoc_pop k (m_params M); m_subs := assoc_set k c (m_subs M); m_training := m_training M |}.
+Definition reg_param (k : name) (p : nat) (M : module) : module :=
+  {| m_params := assoc_set k p (m_params M); m_subs := assoc_pop k (m_subs M); m_training := m_training M |}.
+Definition unreg (k : name) (M : module) : module :=
+  {| m_params := assoc_pop k (m_params M); m_subs := assoc_pop k (m_subs M); m_training := m_training M |}.
+
+Definition set_value (k : name) (v : value) : module -> module :=
+  match v with VModule c => reg_module k c | VParam p => reg_param k p | VOther => unreg k end.
+
+Lemma step_setattr h m k v :
+  step h (SetAttr m k v) =
+  if valid_mod h m && valid_value h v then Some (upd_mod h m (set_value k v)) else None.
+Proof. simpl. destruct (valid_mod h m && valid_value h v); [|reflexivity]. destruct v; reflexivity. Qed.
+
+Lemma valid_mod_lt h m : valid_mod h m = true <-> m < length (mods h).
+Proof. unfold valid_mod. apply Nat.ltb_lt. Qed.
+Lemma valid_par_lt h p : valid_par h p = true <-> p < length (pars h).
+Proof. unfold valid_par. apply Nat.ltb_lt. Qed.
+
+(* after  m.k = v :  k is registered in at most one registry, bound to v iff v is a module / parameter; the
+   registrations of every other name (values and relative order) are unchanged; a name that stays in the same
+   registry keeps its position, a new one is appended; nothing else in the heap changes *)
+Theorem setattr_spec h m k v M :
+  wf h -> nth_error (mods h) m = Some M -> valid_value h v = true ->
+  exists h' M',
+    step h (SetAttr m k v) = Some h' /\ nth_error (mods h') m = Some M' /\
+    assoc_get k (m_params M') = (match v with VParam p => Some p | _ => None end) /\
+    assoc_get k (m_subs M') = (match v with VModule c => Some c | _ => None end) /\
+    (forall k', k' <> k -> assoc_get k' (m_params M') = assoc_get k' (m_params M) /\
+                           assoc_get k' (m_subs M') = assoc_get k' (m_subs M)) /\
+    others k (m_params M') = others k (m_params M) /\
+    others k (m_subs M') = others k (m_subs M) /\
+    (match v with
+     | VParam _ => In k (map fst (m_params M)) -> map fst (m_params M') = map fst (m_params M)
+     | VModule _ => In k (map fst (m_subs M)) -> map fst (m_subs M') = map fst (m_subs M)
+     | VOther => True end) /\
+    (match v with
+     | VParam p => ~ In k (map fst (m_params M)) -> m_params M' = m_params M ++ [(k, p)]
+     | VModule c => ~ In k (map fst (m_subs M)) -> m_subs M' = m_subs M ++ [(k, c)]
+     | VOther => True end) /\
+    m_training M' = m_training M /\
+    (forall i, i <> m -> nth_error (mods h') i = nth_error (mods h) i) /\
+    length (mods h') = length (mods h) /\ pars h' = pars h.
+Proof.
+  intros Hwf HM Hv. destruct (Hwf m M HM) as (NDp & NDs & _ & _).
+  assert (Hm : valid_mod h m = true) by (apply valid_mod_lt, nth_error_Some; congruence).
+  exists (upd_mod h m (set_value k v)), (set_value k v M).
+  rewrite step_setattr, Hm, Hv. simpl. split; [reflexivity|].
+  split; [rewrite nth_error_upd_same, HM; reflexivity|].
+  assert (Rest : (forall i, i <> m -> nth_error (upd m (set_value k v) (mods h)) i = nth_error (mods h) i) /\
+                 length (upd m (set_value k v) (mods h)) = length (mods h) /\ pars h = pars h).
+  { split; [intros i Hi; apply nth_error_upd_other; congruence|]. split; [apply upd_length|reflexivity]. }
+  destruct v as [c|p|]; simpl.
+  - repeat split; try apply Rest.
+    + apply assoc_get_pop_same; exact NDp.
+    + apply assoc_get_set_same.
+    + apply assoc_get_pop_other; assumption.
+    + apply assoc_get_set_other; assumption.
+    + apply others_pop; exact NDp.
+    + apply others_set.
+    + apply keys_set_in.
+    + apply set_notin_append.
+  - repeat split; try apply Rest.
+    + apply assoc_get_set_same.
+    + apply assoc_get_pop_same; exact NDs.
+    + apply assoc_get_set_other; assumption.
+    + apply assoc_get_pop_other; assumption.
+    + apply others_set.
+    + apply others_pop; exact NDs.
+    + apply keys_set_in.
+    + apply set_notin_append.
+  - repeat split; try apply Rest.
+    + apply assoc_get_pop_same; exact NDp.
+    + apply assoc_get_pop_same; exact NDs.
+    + apply assoc_get_pop_other; assumption.
+    + apply assoc_get_pop_other; assumption.
+    + apply others_pop; exact NDp.
+    + apply others_pop; exact NDs.
+Qed.
+
+(* register_module / register_parameter: same effect as the assignment for a value of the right class, TypeError otherwise *)
+Theorem register_spec h m k v :
+  step h (RegisterModule m k v) = (match v with VModule _ => step h (SetAttr m k v) | _ => None end) /\
+  step h (RegisterParameter m k v) = (match v with VParam _ => step h (SetAttr m k v) | _ => None end).
+Proof.
+  simpl. destruct (valid_mod h m && valid_value h v); destruct v; auto.
+Qed.
+
+(* ================================================================== the invariant wf *)
+Lemma wf_init : wf init.
+Proof. intros m M H. destruct m; discriminate. Qed.
+
+Lemma wf_upd_mod h m f :
+  wf h ->
+  (forall M, nth_error (mods h) m = Some M ->
+     NoDup (map fst (m_params (f M))) /\ NoDup (map fst (m_subs (f M))) /\
+     (forall c, In c (map snd (m_subs (f M))) -> c < length (mods h)) /\
+     (forall p, In p (map snd (m_params (f M))) -> p < length (pars h))) ->
+  wf (upd_mod h m f).
+Proof.
+  intros Hwf Hf i Mi Hi. unfold upd_mod in *. simpl in *. rewrite upd_length.
+  destruct (Nat.eq_dec m i) as [->|Hne].
+  - rewrite nth_error_upd_same in Hi. destruct (nth_error (mods h) i) as [M|] eqn:EM; [|discriminate].
+    simpl in Hi. injection Hi as <-. apply Hf. reflexivity.
+  - rewrite nth_error_upd_other in Hi by exact Hne. exact (Hwf i Mi Hi).
+Qed.
+
+Lemma In_snd_set {V} k (v : V) l x : In x (map snd (assoc_set k v l)) -> x = v \/ In x (map snd l).
+Proof.
+  intro H. apply in_map_iff in H. destruct H as [[a b] [<- H]]. apply In_assoc_set in H.
+  destruct H as [H|H]; [injection H as _ ->; auto|right; apply (in_map snd) in H; exact H].
+Qed.
+
+Lemma In_snd_pop {V} k (l : list (name * V)) x : In x (map snd (assoc_pop k l)) -> In x (map snd l).
+Proof.
+  intro H. apply in_map_iff in H. destruct H as [[a b] [<- H]]. apply In_assoc_pop in H.
+  apply (in_map snd) in H. exact H.
+Qed.
+
+Lemma wf_set_value h m k v : wf h -> valid_value h v = true -> wf (upd_mod h m (set_value k v)).
+Proof.
+  intros Hwf Hv. apply wf_upd_mod; [exact Hwf|]. intros M HM. destruct (Hwf m M HM) as (NDp & NDs & Hc & Hp).
+  destruct v as [c|p|]; simpl in *.
+  - apply valid_mod_lt in Hv. repeat split.
+    + apply NoDup_keys_pop; exact NDp.
+    + apply NoDup_keys_set; exact NDs.
+    + intros x Hx. apply In_snd_set in Hx. destruct Hx as [->|Hx]; auto.
+    + intros x Hx. apply In_snd_pop in Hx. auto.
+  - apply valid_par_lt in Hv. repeat split.
+    + apply NoDup_keys_set; exact NDp.
+    + apply NoDup_keys_pop; exact NDs.
+    + intros x Hx. apply In_snd_pop in Hx. auto.
+    + intros x Hx. apply In_snd_set in Hx. destruct Hx as [->|Hx]; auto.
+  - repeat split.
+    + apply NoDup_keys_pop; exact NDp.
+    + apply NoDup_keys_pop; exact NDs.
+    + intros x Hx. apply In_snd_pop in Hx. auto.
+    + intros x Hx. apply In_snd_pop in Hx. auto.
+Qed.
+
+Lemma wf_new_module h : wf h -> wf (new_module h).
+Proof.
+  intros Hwf i Mi Hi. unfold new_module in *. simpl in *. rewrite app_length. simpl.
+  destruct (Nat.lt_ge_cases i (length (mods h))) as [Hlt|Hge].
+  - rewrite nth_error_app1 in Hi by exact Hlt. destruct (Hwf i Mi Hi) as (A & B & C & D).
+    repeat split; auto. intros c Hc. specialize (C c Hc). lia.
+  - rewrite nth_error_app2 in Hi by exact Hge. destruct (i - length (mods h)) as [|j]; simpl in Hi.
+    + injection Hi as <-. simpl. repeat split; try constructor; intros ? [].
+    + destruct j; discriminate.
+Qed.
+
+Lemma register_module_as_set h m k c : register_module h m k c = upd_mod h m (set_value k (VModule c)).
+Proof. reflexivity. Qed.
+
+Lemma wf_new_sequential_fold m items : forall h,
+  wf h -> (forall kc, In kc items -> snd kc < length (mods h)) ->
+  wf (fold_left (fun h' kc => register_module h' m (fst kc) (snd kc)) items h) /\
+  length (mods (fold_left (fun h' kc => register_module h' m (fst kc) (snd kc)) items h)) = length (mods h).
+Proof.
+  induction items as [|[k c] items IH]; intros h Hwf Hv; [simpl; auto|].
+  simpl. assert (Hc : c < length (mods h)) by (apply (Hv (k, c)); left; reflexivity).
+  destruct (IH (register_module h m k c)) as [W L].
+  - rewrite register_module_as_set. apply wf_set_value; [exact Hwf|]. simpl. apply valid_mod_lt. exact Hc.
+  - intros kc Hkc. unfold register_module, upd_mod. simpl. rewrite upd_length. apply Hv. right. exact Hkc.
+  - split; [exact W|]. rewrite L. unfold register_module, upd_mod. simpl. apply upd_length.
+Qed.
+
+Lemma wf_shape h h' :
+  map shape (mods h) = map shape (mods h') -> length (pars h) = length (pars h') -> wf h -> wf h'.
+Proof.
+  intros Hs Hp Hwf m M' HM'.
+  assert (E : nth_error (map shape (mods h)) m = Some (shape M')) by (rewrite Hs, nth_error_map', HM'; reflexivity).
+  rewrite nth_error_map' in E. destruct (nth_error (mods h) m) as [M|] eqn:EM; [|discriminate].
+  simpl in E. injection E as E1 E2. unfold shape in *. destruct (Hwf m M EM) as (A & B & C & D).
+  rewrite <- E1, <- E2, <- (shape_length _ _ Hs), <- Hp. auto.
+Qed.
+
+Lemma forallb_valid h l : forallb (valid_mod h) l = true -> forall c, In c l -> c < length (mods h).
+Proof. intros H c Hc. rewrite forallb_forall in H. apply valid_mod_lt. auto. Qed.
+
+Lemma wf_for_params h m f h' : wf h -> for_params h m f = Some h' -> wf h'.
+Proof.
+  intros Hwf H. unfold for_params in H. destruct (parameters h m) as [ps|]; [|discriminate].
+  simpl in H. injection H as <-. rewrite fold_upd_par.
+  apply (wf_shape h); [reflexivity|simpl; symmetry; apply fold_upd_length|exact Hwf].
+Qed.
+
+Lemma wf_set_mode h m b f h' : wf h -> set_mode_f f b h m = Some h' -> wf h'.
+Proof.
+  intros Hwf H. destruct (set_mode_post _ _ _ _ _ H) as (S1 & P1 & _).
+  apply (wf_shape h); [symmetry; exact S1|rewrite P1; reflexivity|exact Hwf].
+Qed.
+
+Lemma positional_snd ms : map snd (positional ms) = ms.
+Proof.
+  unfold positional. assert (H : forall (ks : list name), length ks = length ms -> map snd (combine ks ms) = ms).
+  { induction ms as [|c ms IH]; intros [|k ks] Hl; simpl in *; try discriminate; auto. f_equal. apply IH. lia. }
+  apply H. rewrite map_length, seq_length. reflexivity.
+Qed.
+
+Theorem wf_step h e h' : wf h -> step h e = Some h' -> wf h'.
+Proof.
+  intros Hwf H. destruct e; cbn [step] in H.
+  - injection H as <-. apply wf_new_module. exact Hwf.
+  - injection H as <-. intros m M HM. simpl in *. destruct (Hwf m M HM) as (A & B & C & D).
+    repeat split; auto. intros p Hp. rewrite app_length. specialize (D p Hp). lia.
+  - destruct (valid_mod h m && valid_value h v) eqn:E; [|discriminate]. apply andb_prop in E. destruct E as [_ Ev].
+    injection H as <-. pose proof (wf_set_value h m k v Hwf Ev) as W. destruct v; exact W.
+  - destruct (valid_mod h m && valid_value h v) eqn:E; [|discriminate]. apply andb_prop in E. destruct E as [_ Ev].
+    destruct v; try discriminate. injection H as <-. exact (wf_set_value h m k (VModule m0) Hwf Ev).
+  - destruct (valid_mod h m && valid_value h v) eqn:E; [|discriminate]. apply andb_prop in E. destruct E as [_ Ev].
+    destruct v; try discriminate. injection H as <-. exact (wf_set_value h m k (VParam p) Hwf Ev).
+  - destruct (forallb (valid_mod h) ms) eqn:E; [|discriminate]. injection H as <-.
+    apply wf_new_sequential_fold; [apply wf_new_module; exact Hwf|].
+    intros kc Hkc. simpl. rewrite app_length. simpl.
+    assert (In (snd kc) ms) by (rewrite <- (positional_snd ms); apply in_map; exact Hkc).
+    pose proof (forallb_valid h ms E _ H). lia.
+  - destruct (forallb (valid_mod h) (map snd items)) eqn:E; [|discriminate]. injection H as <-.
+    apply wf_new_sequential_fold; [apply wf_new_module; exact Hwf|].
+    intros kc Hkc. simpl. rewrite app_length. simpl.
+    pose proof (forallb_valid h _ E _ (in_map snd _ _ Hkc)). lia.
+  - eapply wf_set_mode; eauto.
+  - eapply wf_set_mode; eauto.
+  - eapply wf_for_params; eauto.
+  - eapply wf_for_params; eauto.
+  - eapply wf_for_params; eauto.
+  - destruct (valid_par h p); [|discriminate]. injection H as <-.
+    apply (wf_shape h); [reflexivity|simpl; symmetry; apply upd_length|exact Hwf].
+Qed.
+
+(* every heap built by events satisfies the invariant *)
+Theorem wf_run t : forall h h', wf h -> run h t = Some h' -> wf h'.
+Proof.
+  induction t as [|e t IH]; intros h h' Hwf H; simpl in H; [injection H as <-; exact Hwf|].
+  destruct (step h e) as [h1|] eqn:E; [|discriminate]. eapply IH; [eapply wf_step; eauto|exact H].
+Qed.
+
+(* ================================================================== Sequential *)
+Lemma str_of_nat_inj i j : str_of_nat i = str_of_nat j -> i = j.
+Proof.
+  unfold str_of_nat. intro H.
+  assert (E : Some (Nat.to_uint i) = Some (Nat.to_uint j)).
+  { rewrite <- (NilEmpty.usu (Nat.to_uint i)), <- (NilEmpty.usu (Nat.to_uint j)), H. reflexivity. }
+  injection E as E. rewrite <- (Unsigned.of_to i), <- (Unsigned.of_to j), E. reflexivity.
+Qed.
+
+Lemma positional_keys ms : map fst (positional ms) = map str_of_nat (seq 0 (length ms)).
+Proof.
+  unfold positional.
+  assert (H : forall (ks : list name), length ks = length ms -> map fst (combine ks ms) = ks).
+  { induction ms as [|c ms IH]; intros [|k ks] Hl; simpl in *; try discriminate; auto. f_equal. apply IH. lia. }
+  apply H. rewrite map_length, seq_length. reflexivity.
+Qed.
+
+Lemma positional_keys_NoDup ms : NoDup (map fst (positional ms)).
+Proof.
+  rewrite positional_keys. apply FinFun.Injective_map_NoDup; [|apply seq_NoDup].
+  intros i j. apply str_of_nat_inj.
+Qed.
+
+Lemma upd_app_last {A} (f : A -> A) l x : upd (length l) f (l ++ [x]) = l ++ [f x].
+Proof. induction l as [|a l IH]; simpl; [reflexivity|]. f_equal. exact IH. Qed.
+
+Lemma NoDup_app_left {A} (a b : list A) : NoDup (a ++ b) -> NoDup a.
+Proof.
+  induction a as [|h a IH]; simpl; intro H; [constructor|].
+  inversion H as [|? ? Hn Hd]; subst. constructor.
+  - intro Hin. apply Hn. apply in_or_app. left. exact Hin.
+  - apply IH. exact Hd.
+Qed.
+
+Lemma NoDup_app_notin {A} (l : list A) x : NoDup (l ++ [x]) -> ~ In x l.
+Proof.
+  induction l as [|a l IH]; simpl; intro H; [tauto|].
+  inversion H as [|? ? Hn Hd]; subst. intros [->|Hx].
+  - apply Hn. apply in_or_app. right. left. reflexivity.
+  - exact (IH Hd Hx).
+Qed.
+
+Lemma new_sequential_fold h items : forall acc,
+  NoDup (map fst (acc ++ items)) ->
+  fold_left (fun h' kc => register_module h' (length (mods h)) (fst kc) (snd kc)) items
+            {| mods := mods h ++ [{| m_params := []; m_subs := acc; m_training := true |}]; pars := pars h |} =
+  {| mods := mods h ++ [{| m_params := []; m_subs := acc ++ items; m_training := true |}]; pars := pars h |}.
+Proof.
+  induction items as [|[k c] items IH]; intros acc Hnd; simpl; [rewrite app_nil_r; reflexivity|].
+  unfold register_module at 2. unfold upd_mod. simpl. rewrite upd_app_last. simpl.
+  rewrite set_notin_append.
+  - rewrite IH; rewrite <- app_assoc; [reflexivity|exact Hnd].
+  - change (acc ++ (k, c) :: items) with (acc ++ [(k, c)] ++ items) in Hnd.
+    rewrite app_assoc, map_app in Hnd. apply NoDup_app_left in Hnd.
+    rewrite map_app in Hnd. simpl in Hnd. apply NoDup_app_notin. exact Hnd.
+Qed.
+
+Theorem new_sequential_spec h items :
+  NoDup (map fst items) ->
+  new_sequential h items =
+  {| mods := mods h ++ [{| m_params := []; m_subs := items; m_training := true |}]; pars := pars h |}.
+Proof. intro H. unfold new_sequential, new_module. apply (new_sequential_fold h items []). exact H. Qed.
+
+Lemma nth_error_app_last {A} (l : list A) x : nth_error (l ++ [x]) (length l) = Some x.
+Proof. rewrite nth_error_app2 by lia. rewrite Nat.sub_diag. reflexivity. Qed.
+
+(* Sequential(m_0, ..., m_{k-1}): a new module whose submodule registry is ("0",m_0), ..., ("k-1",m_{k-1}) in that order;
+   forward applies them in that order *)
+Theorem sequential_positional h ms :
+  forallb (valid_mod h) ms = true ->
+  exists h', step h (NewSequential ms) = Some h' /\
+    mods h' = mods h ++ [{| m_params := []; m_subs := positional ms; m_training := true |}] /\
+    pars h' = pars h /\
+    submodules h' (length (mods h)) = Some ms /\
+    map fst (positional ms) = map str_of_nat (seq 0 (length ms)) /\
+    forall X (call : nat -> X -> X) x,
+      seq_forward call h' (length (mods h)) x =
+      match ms with [] => None | _ => Some (fold_left (fun acc c => call c acc) ms x) end.
+Proof.
+  intro Hv. eexists. cbn [step]. rewrite Hv. split; [reflexivity|].
+  rewrite new_sequential_spec by apply positional_keys_NoDup. cbn [mods pars].
+  split; [reflexivity|]. split; [reflexivity|].
+  assert (Hs : submodules {| mods := mods h ++ [{| m_params := []; m_subs := positional ms; m_training := true |}];
+                             pars := pars h |} (length (mods h)) = Some ms).
+  { unfold submodules. cbn [mods]. rewrite nth_error_app_last. simpl. rewrite positional_snd. reflexivity. }
+  split; [exact Hs|]. split; [apply positional_keys|].
+  intros X call x. unfold seq_forward. rewrite Hs. destruct ms; reflexivity.
+Qed.
+
+(* Sequential(OrderedDict(items)): the given names, in the order of the dict *)
+Theorem sequential_dict h items :
+  NoDup (map fst items) -> forallb (valid_mod h) (map snd items) = true ->
+  exists h', step h (NewSequentialDict items) = Some h' /\
+    mods h' = mods h ++ [{| m_params := []; m_subs := items; m_training := true |}] /\
+    pars h' = pars h /\
+    submodules h' (length (mods h)) = Some (map snd items) /\
+    forall X (call : nat -> X -> X) x,
+      seq_forward call h' (length (mods h)) x =
+      match items with [] => None | _ => Some (fold_left (fun acc c => call c acc) (map snd items) x) end.
+Proof.
+  intros Hnd Hv. eexists. cbn [step]. rewrite Hv. split; [reflexivity|].
+  rewrite new_sequential_spec by exact Hnd. cbn [mods pars].
+  split; [reflexivity|]. split; [reflexivity|].
+  assert (Hs : submodules {| mods := mods h ++ [{| m_params := []; m_subs := items; m_training := true |}];
+                             pars := pars h |} (length (mods h)) = Some (map snd items)).
+  { unfold submodules. cbn [mods]. rewrite nth_error_app_last. reflexivity. }
+  split; [exact Hs|].
+  intros X call x. unfold seq_forward. rewrite Hs. destruct items; reflexivity.
+Qed.
+
+(* forward in general (whatever happened to the registry afterwards): a left fold over submodules(), in that order *)
+Theorem seq_forward_spec {X} (call : nat -> X -> X) h m x y :
+  seq_forward call h m x = Some y ->
+  exists cs, submodules h m = Some cs /\ cs <> [] /\ y = fold_left (fun acc c => call c acc) cs x.
+Proof.
+  unfold seq_forward. destruct (submodules h m) as [[|c cs]|]; try discriminate.
+  intro H. injection H as <-. exists (c :: cs). repeat split. discriminate.
+Qed.
+
+(* ================================================================== zero_grad / freeze / unfreeze as events *)
+Inductive pop := PZero | PFreeze | PUnfreeze.
+Definition pop_ev (o : pop) (m : nat) : ev :=
+  match o with PZero => ZeroGrad m | PFreeze => Freeze m | PUnfreeze => Unfreeze m end.
+Definition pop_fun (o : pop) : param -> param :=
+  match o with PZero => zero_one | PFreeze => set_req false | PUnfreeze => set_req true end.
+
+Theorem param_ops_spec h m o :
+  wf h -> acyclic h -> m < length (mods h) ->
+  exists ps h',
+    parameters h m = Some ps /\ step h (pop_ev o m) = Some h' /\
+    mods h' = mods h /\ length (pars h') = length (pars h) /\
+    forall p, (In p ps -> nth_error (pars h') p = option_map (pop_fun o) (nth_error (pars h) p)) /\
+              (~ In p ps -> nth_error (pars h') p = nth_error (pars h) p).
+Proof.
+  intros Hwf Hac Hv. destruct (parameters_spec h m Hwf Hac Hv) as (raw & ps & _ & Hps & _).
+  destruct (for_params_spec h m (pop_fun o) ps) as (h' & Hf & Hm & Hl & Hn); [|exact Hps|].
+  { destruct o; simpl; intro P; [apply zero_one_idem|reflexivity|reflexivity]. }
+  exists ps, h'. split; [exact Hps|]. split; [destruct o; exact Hf|]. auto.
+Qed.
